@@ -894,7 +894,7 @@ def effects_run(fns, table, comb):
     if cap is None:
         undecided_e.append('the nom-recursive dependency line of sv-parser-parser/Cargo.toml could not be read (capacity of the recursion-flag table unknown)')
     elif n_rec > cap:
-        failures.append(fail('-', 'C07.recursive-parser-index-overflow', '%d #[recursive_parser] functions exceed the %d bits of RecursiveInfo selected in Cargo.toml' % (n_rec, cap), ['C07', 'C08'], None))
+        failures.append(fail('-', 'C07.recursive-parser-index-overflow', '%d #[recursive_parser] functions exceed the %d bits of RecursiveInfo selected in Cargo.toml' % (n_rec, cap), ['C07', 'C08', 'C15'], None))
     return dict(failures=failures, checked=checked, tls=sorted(tls), n_packrat=n_packrat, n_recursive=n_rec, E=E, undecided=undecided_e)
 
 
@@ -1203,7 +1203,7 @@ def lexers_check(fns, table):
         else:
             decided.add('escaped_identifier_impl')
             if set(_lit(st[1][2][0])) != set(b' \t\r\n'):
-                report(f, ('ends-at-white-space', 'the identifier stops at %r instead of at blank, tab, CR, LF' % bytes(sorted(set(_lit(st[1][2][0]))))), props=('C06', 'C04', 'C05', 'C11', 'C18'))      # macro names may be escaped identifiers; a comment swallowed into the identifier survives strip_comments
+                report(f, ('ends-at-white-space', 'the identifier stops at %r instead of at blank, tab, CR, LF' % bytes(sorted(set(_lit(st[1][2][0]))))), props=('C06', 'C04', 'C05', 'C11', 'C18', 'C16'))      # macro names may be escaped identifiers; get_str_trim relies on white space being a node of its own; a comment swallowed into the identifier survives strip_comments
     # ---- macro text: the body of a `define runs to the first line end that no backslash escapes
     f = table.get('macro_text')
     if f is None or not f.ast:
